@@ -79,6 +79,28 @@ def get_at(j, path):
     return j
 
 
+INJECT_KEYS = ['custom_properties', 'extensions', 'granular_markings', 'object_marking_refs', 'definition', 'definition_type', 'objects',
+               'spec_version', 'extension_type', 'x_new', 'hashes', 'modified', 'revoked', 'external_references', 'id', 'type',
+               'created_by_ref', 'labels', 'lang', 'selectors', 'marking_ref', 'tlp', 'statement', 'object_refs', 'pattern_type',
+               'ntfs-ext', 'archive-ext', 'windows-pebinary-ext', 'socket-ext', 'extension-definition--00000000-0000-4000-8000-000000000000']
+INJECT_VALUES = [None, 0, '', 'junk', [], {}, False, True, {'extension_type': 'toplevel-property-extension'},
+                 {'extension_type': 'property-extension'}, {'extension_type': 'new-sdo'}, 'tlp', 'statement', {'tlp': 'white'},
+                 {'statement': 's'}, [{}], '2.1', '2.0', 2.1, ['type'], {'ntfs-ext': {'extension_type': 'toplevel-property-extension'}}]
+
+
+def dict_sites(j, path=()):
+    """Addresses of every dict inside j (the root included)."""
+    out = []
+    if isinstance(j, dict):
+        out.append(path)
+        for k in j:
+            out.extend(dict_sites(j[k], path + (k,)))
+    elif isinstance(j, list):
+        for i, v in enumerate(j):
+            out.extend(dict_sites(v, path + (i,)))
+    return out
+
+
 def corrupt(j, picks):
     """Apply wrong-kind replacements.  picks = [(site number, kind name, variant number)].  Returns (copy, description)."""
     j = C._copy(j)
@@ -87,6 +109,23 @@ def corrupt(j, picks):
         ss = sites(j)
         if not ss:
             break
+        if kind in ('inject', 'remove'):
+            ds = dict_sites(j)
+            dpath = ds[site_n % len(ds)]
+            target = get_at(j, dpath) if dpath else j
+            if kind == 'remove':
+                if not target:
+                    continue
+                key = sorted(target)[var_n % len(target)]
+                del target[key]
+                desc.append(dict(path='.'.join(str(p) for p in dpath + (key,)), prop=key, depth=len(dpath) + 1, kind='removed', was='-'))
+            else:
+                key = INJECT_KEYS[(site_n // 7 + var_n) % len(INJECT_KEYS)]
+                val = INJECT_VALUES[(site_n // 3 + var_n * 5) % len(INJECT_VALUES)]
+                target[key] = C._copy(val)
+                desc.append(dict(path='.'.join(str(p) for p in dpath + (key,)), prop=key, depth=len(dpath) + 1,
+                                 kind='injected-' + kind_of_json(val), was='-'))
+            continue
         path = ss[site_n % len(ss)]
         old = get_at(j, path)
         k = kind
@@ -119,6 +158,15 @@ def base_object(op):
         d.update(C._copy(rich))
         return d
     if src == 'marking':
+        if n % 2:
+            colour = ['white', 'green', 'amber', 'red'][n // 2 % 4]
+            d = {'type': 'marking-definition', 'id': C.TLP[colour], 'created': '2017-01-20T00:00:00.000Z', 'definition_type': 'tlp',
+                 'definition': {'tlp': colour}}
+            if op['ver'] == '2.1':
+                d.update(spec_version='2.1', name='TLP:' + colour.upper())
+                if n % 3 == 0:
+                    d['extensions'] = {'extension-definition--' + C.mkuuid(3, 'c17md'): {'extension_type': 'property-extension', 'rank': 1}}
+            return d
         d = dict(C.MARKING_STATEMENT_21 if op['ver'] == '2.1' else C.MARKING_STATEMENT_20)
         d.update(id=C.mkid('marking-definition', n), created='2017-01-20T00:00:00.000Z')
         return C._copy(d)
@@ -159,10 +207,10 @@ class C17(Profile):
     # ------------------------------------------------------------------ generation
     def generate(self, rng, index, tier):
         ops = []
-        kinds = sorted(JUNK)
+        kinds = sorted(JUNK) + ['inject', 'inject', 'remove']
         entries = U.swarm_weights(rng, ENTRIES, keep=0.75, must=('parse_dict',))
         for n in range(rng.randrange(30, 81)):
-            src = U.weighted(rng, [('sdo', 6), ('nested', 3), ('sco', 2), ('marking', 1)])
+            src = U.weighted(rng, [('sdo', 6), ('nested', 3), ('sco', 2), ('marking', 1.5)])
             ver = rng.choice(['2.0', '2.1'])
             if src == 'sdo':
                 name = rng.choice(C.versioned_types(ver))
@@ -391,9 +439,19 @@ class C17(Profile):
         after = self.keys_in(store)
         if before is None or after is None:
             # the store cannot be listed any more: something undecodable was written
+            if after is None and before is not None and not out.ok:
+                raise Violation('failure-atomicity', 'C17.store-unreadable-after/%s/raised' % entry, dict(sites=desc, type=op['name']))
             if after is None and before is not None:
-                raise Violation('failure-atomicity', 'C17.store-unreadable-after/%s/%s' % (entry, 'ok' if out.ok else 'raised'),
-                                dict(sites=desc, type=op['name']))
+                # an add that SUCCEEDED with content the source cannot read back is not what the atomicity clause is about
+                self.world.stat('store_unreadable_after_successful_add')
+                if entry.startswith(('mem', 'env')):
+                    self.sw.make_memory()
+                else:
+                    self.sw.disk.raw_listing()
+                    import shutil
+                    shutil.rmtree(self.sw.fsdir, ignore_errors=True)
+                    os.mkdir(self.sw.fsdir)
+                    self.sw.make_fs()
             return
         world.probe('atomicity_checked_store')
         world.changed()
